@@ -43,4 +43,4 @@ for name, patch, props, meta in jobs:
         print(name, entry["applies"], {p: (c["rc"], c["clauses"]) for p, c in entry["checks"].items()}, flush=True)
     finally:
         subprocess.run(["git", "-C", "/repo", "worktree", "remove", "--force", wt])
-        subprocess.run(["rm", "-rf", f"{VERIF}/replays"])
+        subprocess.run(["rm", "-rf", f"{VERIF}/.work/replays-scratch"])
